@@ -72,11 +72,15 @@ var (
 	skipMu sync.Mutex
 	skips  = map[string]int{}
 	caseNo int64
+	// skipTotal / caseNo: a run in which the harness had to give up on a large share of its cases
+	// has not explored what its evidence claims; censusVerdict turns that into "inconclusive"
+	skipTotal int
 )
 
 func skip(why string) *core.Violation {
 	skipMu.Lock()
 	skips[why]++
+	skipTotal++
 	cp := map[string]int{}
 	for k, v := range skips {
 		cp[k] = v
@@ -300,7 +304,7 @@ func censusSane() string {
 		}()
 		port, ok := f.startProxy()
 		if !ok {
-			saneErr = "no accept loop recognised after `socks add` (or no port could be bound)"
+			saneErr = "no proxy could be started: " + lastStartErr
 			return
 		}
 		if n := count(); n.starts != 1 || n.startsListening != 1 || n.handlers != 0 || n.readers != 0 {
@@ -350,6 +354,13 @@ func censusSane() string {
 func censusVerdict() {
 	if saneErr != "" {
 		fmt.Printf("INFRASTRUCTURE: the harness cannot recognise Havoc's relay goroutines (%s); every case was skipped\n", saneErr)
+		os.Exit(3)
+	}
+	skipMu.Lock()
+	n, total, why := skipTotal, atomic.LoadInt64(&caseNo), fmt.Sprint(skips)
+	skipMu.Unlock()
+	if total >= 20 && int64(n)*5 > total {
+		fmt.Printf("INFRASTRUCTURE: the harness gave up on %d of %d cases (%s); the run is not conclusive\n", n, total, why)
 		os.Exit(3)
 	}
 }
@@ -438,7 +449,7 @@ func (f *fixture) operator(cmd, params string) (map[string]string, error) {
 }
 
 func freePort() string {
-	l, err := net.Listen("tcp4", "127.0.0.1:0")
+	l, err := core.ListenLoopback("tcp4")
 	if err != nil {
 		return ""
 	}
@@ -447,6 +458,8 @@ func freePort() string {
 	return strconv.Itoa(p)
 }
 
+var lastStartErr string
+
 // startProxy issues `socks add <port>` on a free port and waits until the accept loop of
 // that proxy is parked in Accept.  ok=false: no port could be bound (another process took
 // it between our probe and Havoc's Listen) — an infrastructure condition, not a verdict.
@@ -454,10 +467,12 @@ func (f *fixture) startProxy() (string, bool) {
 	for attempt := 0; attempt < 6; attempt++ {
 		port := freePort()
 		if port == "" {
+			lastStartErr = "net.Listen(127.0.0.1:0) failed: no free port"
 			continue
 		}
 		before := count().starts
 		if _, err := f.operator("socks add", port); err != nil {
+			lastStartErr = "TaskPrepare(socks add " + port + ") returned: " + err.Error()
 			continue
 		}
 		listening := false
@@ -473,6 +488,11 @@ func (f *fixture) startProxy() (string, bool) {
 		if ok && listening {
 			f.live = append(f.live, port)
 			return port, true
+		}
+		if !refused(port) {
+			lastStartErr = fmt.Sprintf("port %s accepts connections after `socks add` but no goroutine with a frame of package Havoc/pkg/socks parked in Accept was found (census %+v)", port, count())
+		} else {
+			lastStartErr = fmt.Sprintf("`socks add %s` returned no error but nothing listens on the port (bind lost to another process?) (census %+v)", port, count())
 		}
 		f.operator("socks kill", port) // drop the dead table entry
 	}
@@ -493,6 +513,7 @@ func (f *fixture) forget(port string) {
 func (f *fixture) cleanup(clients []*cli) {
 	for _, c := range clients {
 		if c != nil && c.conn != nil {
+			c.conn.SetLinger(0) // abortive: leaves no TIME_WAIT socket behind (see a_test.go closeA)
 			c.conn.Close()
 		}
 	}
